@@ -20,11 +20,17 @@ if os.path.exists("/tmp/matrix/summary.txt"):
         p = line.split()
         if p and p[0] != "DONE":
             mat[p[0]] = line.strip()
+if os.path.exists("/tmp/round2/summary.txt"):
+    for line in open("/tmp/round2/summary.txt"):
+        p = line.split()
+        if p and p[0] != "DONE":
+            conf[p[0]] = line.split("|")[0].strip()
+            mat[p[0]] = line.split("|")[-1].strip()
 rows = []
-for c in range(1, 21):
-    for m in (1, 2):
-        sid = f"C{c:02d}_{m}"
-        src = f"/tmp/out_C{c:02d}/mut{m}"
+for rnd_, c, m in [(r, c, m) for r in (1, 2) for c in range(1, 21) for m in (1, 2)]:
+    if True:
+        sid = f"C{c:02d}_{m}" if rnd_ == 1 else f"C{c:02d}_r2_{m}"
+        src = f"/tmp/out_C{c:02d}/mut{m}" if rnd_ == 1 else f"/tmp/out2_C{c:02d}/mut{m}"
         if not os.path.exists(src + "/patch.diff"):
             continue
         d = os.path.join(OUT, sid)
@@ -34,9 +40,10 @@ for c in range(1, 21):
         shutil.copy(src + "/demo.py", d + "/demo.py")
         meta = json.load(open(src + "/meta.json"))
         meta["id"] = sid
+        meta["round"] = rnd_
         meta["rebased_onto_fixed_tree"] = os.path.exists(ported)
         meta["confirmed_here"] = conf.get(sid, "not confirmed")
-        log = f"/tmp/matrix/{sid}.log"
+        log = f"/tmp/matrix/{sid}.log" if rnd_ == 1 else f"/tmp/round2/{sid}.log"
         caught = {"check": f"./vf check C{c:02d}", "result": mat.get(sid, "not run")}
         if os.path.exists(log):
             txt = open(log).read()
